@@ -51,6 +51,9 @@ with notrace():
             END_SITES.append((kind, n))
     BASE_ATTRS = [(one(a).O_OBJ[102]().Key_Lett, a.Name) for a in _bp0.select_many('O_ATTR') if one(a).O_BATTR[106]() and not one(a).O_RATTR[106]()]
     TYPES = ['integer', 'string', 'boolean', 'real', 'unique_id'] + [n for n in ('My_Integer', 'My_Enum') if _bp0.select_any('S_DT', lambda x: x.Name == n)]
+    if 'My_Integer' in TYPES:
+        # user types stacked on user types: *2 = My_Integer2 on My_Integer, *3 = My_Integer3 on My_Integer2, *e2 = on a user type on My_Enum
+        TYPES += ['*2', '*3', '*e2']
     HAS_CC = _bp0.select_any('C_C') is not None
     SWAP_SITES = []
     for o in _bp0.select_many('O_OBJ'):
@@ -208,13 +211,31 @@ def check_retype(bi: int, ti: int) -> bool:
     with notrace():
         bp = load_bp()
         attr = [a for a in bp.select_many('O_ATTR') if one(a).O_OBJ[102]().Key_Lett == kl and a.Name == name][0]
-        new_dt = bp.select_one('S_DT', lambda s: s.Name == TYPES[ti])
+        if TYPES[ti].startswith('*'):
+            proto = bp.select_one('S_DT', lambda s: s.Name == 'My_Integer')
+            pkg = one(proto).PE_PE[8001].EP_PKG[8000]()
+
+            def stack(nm, base):
+                dt = bp.new('S_DT', Name=nm)
+                pe = bp.new('PE_PE')
+                xtuml.relate(dt, pe, 8001); xtuml.relate(pe, pkg, 8000)
+                u = bp.new('S_UDT')
+                xtuml.relate(u, dt, 17); xtuml.relate(u, base, 18)
+                return dt
+            if TYPES[ti] == '*e2':
+                new_dt = stack('My_Enum3', stack('My_Enum2', bp.select_one('S_DT', lambda s: s.Name == 'My_Enum')))
+            else:
+                new_dt = stack('My_Integer2', proto)
+                if TYPES[ti] == '*3':
+                    new_dt = stack('My_Integer3', new_dt)
+        else:
+            new_dt = bp.select_one('S_DT', lambda s: s.Name == TYPES[ti])
         xtuml.unrelate(attr, one(attr).S_DT[114](), 114)
         xtuml.relate(attr, new_dt, 114)
         affected = refers_to(bp, kl, name)
     dom = ooaofooa.mk_component(bp)
     case(EDIT, kl, name, TYPES[ti])
-    core = 'INTEGER' if one(new_dt).S_EDT[17]() else ('INTEGER' if TYPES[ti] == 'My_Integer' else TYPES[ti].upper())
+    core = 'INTEGER' if (one(new_dt).S_EDT[17]() or TYPES[ti] in ('My_Integer', '*2', '*3', '*e2')) else TYPES[ti].upper()
     exp = copy_sig(BASE)
     exp['classes'] = {k: [(n, core if any(k == c.upper() and n == a for c, a in affected) else t) for n, t in v]
                       for k, v in exp['classes'].items()}
